@@ -176,7 +176,7 @@ theorem genCols_spec (rec : Rec) (cols : List GCol) (r text : Str)
 theorem parseCols_plain (row : Str) (validate : Bool) (cols : List PCol) (acc : Row)
     (h : validate = false ∨ ∀ c ∈ cols, c.validations = []) :
     parseCols row validate cols acc
-      = .ok (.parsed (acc ++ cols.map (fun c => (c.name, colValue row c)))) := by
+      = .parsed (acc ++ cols.map (fun c => (c.name, colValue row c))) := by
   induction cols generalizing acc with
   | nil => simp [parseCols]
   | cons c cs ih =>
@@ -192,17 +192,30 @@ theorem parseCols_plain (row : Str) (validate : Bool) (cols : List PCol) (acc : 
     rw [ih _ hcs]
     simp
 
-theorem parseRow_plain (row : Str) (validate : Bool) (fmt : List PCol) (hne : fmt ≠ [])
-    (h : validate = false ∨ ∀ c ∈ fmt, c.validations = []) :
-    parseRow row fmt validate = .ok (.parsed (fmt.map (fun c => (c.name, colValue row c)))) := by
+/-- fix C16-d: the only way `parse_fwf_row` fails is the refusal of an empty layout -/
+theorem parseRow_ok (row : Str) (validate : Bool) (fmt : List PCol) (hne : fmt ≠ []) :
+    parseRow row fmt validate = .ok (parseCols row validate fmt []) := by
   unfold parseRow
   have : fmt.isEmpty = false := by cases fmt <;> simp_all
   simp only [this, Bool.false_eq_true, if_false]
-  rw [parseCols_plain row validate fmt [] h]
+
+theorem parseRow_error (row : Str) (validate : Bool) (fmt : List PCol) (e : PyErr)
+    (h : parseRow row fmt validate = .error e) : e = .SyntaxError ∧ fmt = [] := by
+  unfold parseRow at h
+  split at h
+  · rename_i hf
+    cases h
+    exact ⟨rfl, by simpa using hf⟩
+  · cases h
+
+theorem parseRow_plain (row : Str) (validate : Bool) (fmt : List PCol) (hne : fmt ≠ [])
+    (h : validate = false ∨ ∀ c ∈ fmt, c.validations = []) :
+    parseRow row fmt validate = .ok (.parsed (fmt.map (fun c => (c.name, colValue row c)))) := by
+  rw [parseRow_ok row validate fmt hne, parseCols_plain row validate fmt [] h]
   simp
 
 theorem parseCols_rejected (row : Str) (validate : Bool) (cols : List PCol) (acc : Row) (rw' msg : Str)
-    (h : parseCols row validate cols acc = .ok (.rejected rw' msg)) : rw' = row ∧ validate = true := by
+    (h : parseCols row validate cols acc = .rejected rw' msg) : rw' = row ∧ validate = true := by
   induction cols generalizing acc with
   | nil => simp [parseCols] at h
   | cons c cs ih =>
@@ -210,11 +223,9 @@ theorem parseCols_rejected (row : Str) (validate : Bool) (cols : List PCol) (acc
     split at h
     · rename_i hv
       split at h
-      · split at h
-        · cases h
-        · cases h
-          simp only [Bool.and_eq_true] at hv
-          exact ⟨rfl, hv.1⟩
+      · cases h
+        simp only [Bool.and_eq_true] at hv
+        exact ⟨rfl, hv.1⟩
       · exact ih _ h
     · exact ih _ h
 
@@ -223,7 +234,82 @@ theorem parseRow_rejected (row : Str) (validate : Bool) (fmt : List PCol) (rw' m
   unfold parseRow at h
   split at h
   · cases h
-  · exact parseCols_rejected row validate fmt [] rw' msg h
+  · exact parseCols_rejected row validate fmt [] rw' msg (by simpa using h)
+
+/-! #### which validations decide (fix C16-d: whatever fails, the row is classified) -/
+
+/-- `error_messages` is empty exactly when every validation holds -/
+theorem failedMsgs_eq_nil (c : PCol) (v : Option Str) (row : Str) (acc : Row) (i : Nat)
+    (vs : List Validation) :
+    failedMsgs c v row acc i vs = [] ↔ ∀ f ∈ vs, f v row acc = true := by
+  induction vs generalizing i with
+  | nil => simp [failedMsgs]
+  | cons f fs ih =>
+    simp only [failedMsgs, List.mem_cons, forall_eq_or_imp]
+    by_cases hf : f v row acc = true
+    · simp [hf, ih]
+    · simp [hf]
+
+/-- one message per failed validation -/
+theorem failedMsgs_length (c : PCol) (v : Option Str) (row : Str) (acc : Row) (i : Nat)
+    (vs : List Validation) :
+    (failedMsgs c v row acc i vs).length = (vs.filter (fun f => !f v row acc)).length := by
+  induction vs generalizing i with
+  | nil => simp [failedMsgs]
+  | cons f fs ih =>
+    simp only [failedMsgs, List.filter_cons]
+    by_cases hf : f v row acc = true
+    · simp [hf, ih]
+    · simp [hf, ih]
+
+/-- the columns (in layout order) all of whose validations hold on the row, each seeing the
+columns parsed before it: `true` iff the row is accepted -/
+def allValid (row : Str) : List PCol → Row → Bool
+  | [], _ => true
+  | c :: cs, acc =>
+    c.validations.all (fun f => f (colValue row c) row acc)
+      && allValid row cs (acc ++ [(c.name, colValue row c)])
+
+theorem parseCols_classify (row : Str) (cols : List PCol) (acc : Row) :
+    (allValid row cols acc = true →
+      parseCols row true cols acc = .parsed (acc ++ cols.map (fun c => (c.name, colValue row c))))
+    ∧ (allValid row cols acc = false → ∃ msg, parseCols row true cols acc = .rejected row msg) := by
+  induction cols generalizing acc with
+  | nil => simp [parseCols, allValid]
+  | cons c cs ih =>
+    simp only [parseCols, allValid, Bool.true_and]
+    by_cases hall : c.validations.all (fun f => f (colValue row c) row acc) = true
+    · have hnil : failedMsgs c (colValue row c) row acc 0 c.validations = [] :=
+        (failedMsgs_eq_nil c _ row acc 0 _).mpr (by simpa using hall)
+      have hstep : (if (!c.validations.isEmpty) = true then
+            if (!(failedMsgs c (colValue row c) row acc 0 c.validations).isEmpty) = true then
+              RowRes.rejected row (join [';'] (failedMsgs c (colValue row c) row acc 0 c.validations))
+            else parseCols row true cs (acc ++ [(c.name, colValue row c)])
+          else parseCols row true cs (acc ++ [(c.name, colValue row c)]))
+          = parseCols row true cs (acc ++ [(c.name, colValue row c)]) := by
+        rw [hnil]; simp
+      rw [hstep, hall]
+      simp only [Bool.true_and]
+      obtain ⟨i1, i2⟩ := ih (acc ++ [(c.name, colValue row c)])
+      refine ⟨fun h => ?_, i2⟩
+      rw [i1 h]; simp
+    · have hall' : c.validations.all (fun f => f (colValue row c) row acc) = false := by
+        simpa using hall
+      have hne : failedMsgs c (colValue row c) row acc 0 c.validations ≠ [] := by
+        intro h
+        have := (failedMsgs_eq_nil c _ row acc 0 _).mp h
+        exact hall (by simpa using this)
+      have hvs : c.validations.isEmpty = false := by
+        cases hv : c.validations with
+        | nil => rw [hv] at hall; simp at hall
+        | cons _ _ => rfl
+      have hme : (failedMsgs c (colValue row c) row acc 0 c.validations).isEmpty = false := by
+        cases hm : failedMsgs c (colValue row c) row acc 0 c.validations with
+        | nil => exact absurd hm hne
+        | cons _ _ => rfl
+      rw [hall']
+      simp only [hvs, hme, Bool.not_false, if_true, Bool.false_and]
+      exact ⟨fun h => (by cases h), fun _ => ⟨_, rfl⟩⟩
 
 /-! ### the row loop of load_fwf -/
 
@@ -409,6 +495,58 @@ theorem loadFwf_spec (lines : List Str) (hdr body ftr : List PCol) (validate : B
                 · exact i4 x hx hne
                 · simp at hx; subst hx; exact ⟨_, by rw [hlay]; exact hr⟩
 
+
+/-- fix C16-d: with non-empty layouts the row loop never raises -/
+theorem loadLoop_total (hdr body : List PCol) (validate : Bool) (ret : Option Str)
+    (hh : hdr ≠ []) (hb : body ≠ []) (rest : List Str) (i : Nat) (prev : Str) (st : Loaded) :
+    ∃ r, loadLoop hdr body validate ret i prev rest st = .ok r := by
+  induction rest generalizing i prev st with
+  | nil => exact ⟨_, rfl⟩
+  | cons row rest ih =>
+    simp only [loadLoop]
+    have hl : (if i = 1 then hdr else body) ≠ [] := by split <;> assumption
+    rw [parseRow_ok prev validate _ hl]
+    split
+    · cases parseCols prev validate (if i = 1 then hdr else body) [] with
+      | parsed r => exact ih _ _ _
+      | rejected rw' msg => exact ih _ _ _
+    · exact ih _ _ _
+
+/-- fix C16-d: `load_fwf` (over the lines read) raises only for a missing header layout -/
+theorem loadFwf_total (lines : List Str) (hdr body ftr : List PCol) (validate : Bool)
+    (ret : Option Str) (hh : hdr ≠ []) :
+    ∃ st, loadFwf lines hdr body ftr validate ret = .ok st := by
+  unfold loadFwf
+  have hhe : hdr.isEmpty = false := by cases hdr <;> simp_all
+  simp only [hhe, Bool.false_eq_true, if_false]
+  have hb : (if body.isEmpty then hdr else body) ≠ [] := by
+    split
+    · exact hh
+    · rename_i h; intro h'; rw [h'] at h; simp at h
+  have hf : (if ftr.isEmpty then (if body.isEmpty then hdr else body) else ftr) ≠ [] := by
+    split
+    · exact hb
+    · rename_i h; intro h'; rw [h'] at h; simp at h
+  obtain ⟨⟨p, st1⟩, hr⟩ := loadLoop_total hdr _ validate ret hh hb lines 0 []
+    { accepted := [], rejected := [] }
+  rw [hr]
+  simp only
+  split
+  · rw [parseRow_ok p validate _ hf]
+    cases parseCols p validate _ [] with
+    | parsed r => exact ⟨_, rfl⟩
+    | rejected rw' msg => exact ⟨_, rfl⟩
+  · exact ⟨_, rfl⟩
+
+theorem loadFwf_error (lines : List Str) (hdr body ftr : List PCol) (validate : Bool)
+    (ret : Option Str) (e : PyErr) (h : loadFwf lines hdr body ftr validate ret = .error e) :
+    e = .SyntaxError ∧ hdr = [] := by
+  by_cases hh : hdr = []
+  · subst hh
+    simp [loadFwf] at h
+    exact ⟨h.symm, rfl⟩
+  · obtain ⟨st, hst⟩ := loadFwf_total lines hdr body ftr validate ret hh
+    rw [hst] at h; cases h
 
 theorem pairwise_disjoint_forall (fmt : List GCol)
     (hp : fmt.Pairwise (fun a b => a.till ≤ b.offset ∨ b.till ≤ a.offset)) :
